@@ -90,4 +90,10 @@ CHECKS = {
         "text": "Labels of generated unit expressions (C02 generator, integer/rational scalings of every decimal length up to 2^64-1, labeled/unlabeled strong typedefs, prefixes, common units) are read byte by byte under ASan (sizeof == strlen+1, NUL terminated, trait == function form), parsed with the documented grammar over the labels of the named units involved, and every reading must denote the unit's exact dimension and magnitude; unlabeled units must print the generic marker; IToA/UIToA boundary and random arguments and streaming of every rep are compared with decimal text; labels must be identical across compilers.",
         "note": "Trusted: vf/props/c18.py parser (accepts any reading that matches, so ambiguity can only lose detection), vf/model.py. Factor order inside a product is unspecified and therefore not compared textually.",
     },
+    "C17": {
+        "module": ("vf.props.c17", "C17"), "engine": "planeA",
+        "technique": "runtime monitoring: differential execution against std::chrono's own operators on laundered counts under sanitizer traps; reified unit facts vs exact model",
+        "text": "For 62 duration types (4 reps x 14 periods + the six named typedefs) as_quantity / implicit back-conversion / as_chrono_duration must preserve the count bit-for-bit, the rep, and the unit seconds x Period (reified and compared with the exact ratio, reduced period checked); sampled ordered pairs run the six comparisons (both operand orders), + and - against chrono's own answers wherever a 128-bit oracle shows chrono does not overflow; implicit acceptance of a duration is compared with that of its corresponding quantity.",
+        "note": "Trusted: libstdc++ chrono as reference, 128-bit overflow oracle; pairs the library's policy rejects are dropped, not judged.",
+    },
 }
